@@ -159,6 +159,16 @@ def one_tree(tspec, relative_style, acc, rnd, only_mp=None):
             acc.evaluated()
             acc.count("include_mode_scans")
             attribute_scan_findings(si, MAPPING, c3)
+        dirs_nonroot = [d for d in dirs if d]
+        if dirs_nonroot and (rnd.random() < 0.4 or only_mp is not None):
+            d = rnd.choice(dirs_nonroot)
+            c4 = dict(case, excluded_dir=d)
+            HUB.case = c4
+            get_evaluable_architecture(root, root, exclusions=("*/" + os.path.basename(d),))
+            sx = HUB.scan_events[-1]
+            acc.evaluated()
+            acc.count("directory_exclusion_scans")
+            attribute_scan_findings(sx, MAPPING, c4)
         acc.count("trees")
     finally:
         trees.remove_tree(root)
